@@ -203,6 +203,7 @@ type ReplayFile struct {
 	Repeat   int      `json:"repeat"` // replays needed at most (map-order caused findings)
 	TreeHash string   `json:"instrumented_tree_hash"`
 	Note     string   `json:"note"`
+	FromSeed bool     `json:"from_seed"` // no tape recorded (the process died): regenerate it from seed and run
 }
 
 type Scenario func(rc *RunCtx) *Violation
@@ -365,6 +366,9 @@ func RunWorker(t *testing.T) {
 			break
 		}
 		run := worker + i*workers
+		if pf := os.Getenv("VERIF_PROGRESS"); pf != "" {
+			os.WriteFile(pf, []byte(fmt.Sprint(run)), 0644)
+		}
 		tape := verifsim.NewTape(runSeed(seed, prop, run), 1<<16)
 		id := fmt.Sprintf("%s-%d-%d", prop, seed, run)
 		v, rc := execTape(t, sc, tape, st, prop, tier, id)
@@ -456,7 +460,11 @@ func RunReplay(t *testing.T, path string) {
 		reps = 1
 	}
 	for i := 0; i < reps; i++ {
-		v, _ := execTape(t, sc, verifsim.ReplayTape(append([]uint32(nil), rf.Tape...)), NewStats(), rf.Property, rf.Tier, "replay")
+		tape := verifsim.ReplayTape(append([]uint32(nil), rf.Tape...))
+		if rf.FromSeed {
+			tape = verifsim.NewTape(runSeed(rf.Seed, rf.Property, rf.Run), 1<<16)
+		}
+		v, _ := execTape(t, sc, tape, NewStats(), rf.Property, rf.Tier, "replay")
 		if v != nil {
 			fmt.Printf("VIOLATION property=%s replay=%s\n  reproduced on attempt %d: class=%s detail=%s\n", rf.Property, path, i+1, v.Class, trunc(v.Detail, 1500))
 			if v.Class != rf.Class {
